@@ -142,7 +142,7 @@ class DetachedServer(ServerBase):
 
             elif msg == RuntimeMessage.CANCEL:
                 request = cast(uuid.UUID, payload)
-                self.handle_cancel_comp_task(request)
+                self.handle_cancel_comp_task(request, conn)
 
             else:
                 raise RuntimeError(f'Unexpected message type: {msg.name}')
@@ -330,9 +330,21 @@ class DetachedServer(ServerBase):
         s = CompilationStatus.DONE if box.ready else CompilationStatus.RUNNING
         self.outgoing.put((conn, RuntimeMessage.STATUS, s))
 
-    def handle_cancel_comp_task(self, request: uuid.UUID) -> None:
+    def handle_cancel_comp_task(
+        self,
+        request: uuid.UUID,
+        conn: Connection | None = None,
+    ) -> None:
         """Cancel a compilation task in the system."""
         _logger.info(f'Cancelling: {request}.')
+
+        if conn is not None and (
+            request not in self.clients[conn] or request not in self.tasks
+        ):
+            # Not an open task of this client (unknown, already cancelled,
+            # already collected, or someone else's): acknowledge, do nothing.
+            self.outgoing.put((conn, RuntimeMessage.CANCEL, None))
+            return
 
         # Remove task from server data
         mailbox_id, client_conn = self.tasks[request]
